@@ -178,6 +178,16 @@ class Labeller:
                 return [("fresh VfsError without with_path", None)]
             if sh in ("Clone::clone", "Deref::deref") and e[2]:
                 return self.err_value_unlabelled(e[2][0], depth - 1, env)
+            hb_ = self.inter.body_of_call(e) if len(e) > 3 else None
+            if hb_ is not None and hb_.kind != "Closure" and hb_.vis != "pub" and hb_.impl and not hb_.impl.get("trait") and \
+                    hb_.impl["self_ty"] == self.w.path_ty and "error::VfsError" in hb_.local_ty(0) and "Result<" not in hb_.local_ty(0):
+                # a private method of the path type that decorates an error (`self.decorate_error(err, "..")`): what it returns,
+                # with its parameters replaced by the actual arguments
+                out = []
+                ids_ = self.inter.callee_ids(hb_)
+                for ct, _, _ in self.inter.ret_cases(hb_):
+                    out.extend(self.err_value_unlabelled(norm(self.inter.subst(ct, ids_, e[2])), depth - 1, env))
+                return out
             if sh in ("FnOnce::call_once", "Fn::call", "FnMut::call_mut") and e[2] and strip(e[2][0])[0] == "closure":
                 # a local closure that builds the error (several refusals sharing one construction): what it returns
                 cb = self.facts.body(strip(e[2][0])[1])
@@ -243,8 +253,11 @@ def kind_preserving_relabels(facts, rep, w, rule, only=None):
                 if fc is None or fc.arg_count < 2 or "error::VfsError" not in fc.local_ty(2) or "std::io::Error" in fc.local_ty(2):
                     continue        # (conversions of io::Error / other error types build the VfsError in the first place)
                 fresh = []
+                own_helper = lambda hb: hb.kind != "Closure" and hb.vis != "pub" and bool(hb.impl) and not hb.impl.get("trait") and \
+                    hb.impl["self_ty"] == w.path_ty
                 for ct, _, bb in inter.ret_cases(fc):
-                    for a in alts(norm(ct)):
+                    # (a private decorating method of the path type called from the closure is read through)
+                    for a in alts(norm(inter.inline_ret(ct, depth=2, pred=own_helper))):
                         x = a
                         while x[0] == "call" and isinstance(x[1], str) and short(x[1]) in ("VfsError::with_path", "VfsError::with_context",
                                                                                          "VfsError::with_cause", "Clone::clone") and x[2]:
@@ -498,13 +511,8 @@ def run_error_rs(facts, rep):
             if b.trait_item_of == trait and b.kind != "Closure":
                 n += 1
                 inter = Inter(facts)
-                cb = inter.code_body(b)
-                kinds = set()
-                for blk in cb.blocks:
-                    for s in blk.stmts:
-                        if s.kind == "assign" and s.rv.kind == "agg" and s.rv.agg.get("adt") == "error::VfsErrorKind":
-                            kinds.add(s.rv.agg["variant"])
-                ncalls = [short(x.term.callee()) for x in cb.calls()]
+                kinds, ncalls = inter.kinds_and_calls(b)
+                ncalls = [c for c in ncalls if not c.startswith(("Pin::", "Box::", "future::", "Future::", "ready"))]
                 ok = kinds == {"NotSupported"} and all(c in ("From::from", "Into::into") for c in ncalls)
                 rep.ob("R12.3c", b.id, "default builds NotSupported only", ok, "kinds %s calls %s" % (sorted(kinds), ncalls), b.span)
         if trait == "filesystem::FileSystem":
